@@ -380,7 +380,24 @@ func (ex *Exec) slice(th *Thread, fr *Frame, x *ssa.Slice) {
 		ex.set(fr, x, strV{s: a.s[lo:hi]})
 	case sliceV:
 		if a.abs != nil {
-			panic(unsupported("slicing abstract slice"))
+			if x.Low != nil {
+				if lt := ex.get(fr, x.Low).(*Term); !lt.IsConst() || lt.c != 0 {
+					panic(unsupported("slicing abstract slice with non-zero low bound"))
+				}
+			}
+			hi := a.abs.length
+			if x.High != nil {
+				hi = ex.tc.Resize(ex.get(fr, x.High).(*Term), 64, true)
+			}
+			capT := a.abs.capa
+			okc := ex.tc.And(ex.tc.Bin(OpSLe, ex.tc.Const(64, 0), hi), ex.tc.Bin(OpSLe, hi, capT))
+			if !ex.branch(okc, "slice-bounds") {
+				ex.runtimePanic(th, "slice bounds out of range")
+				return
+			}
+			ex.set(fr, x, sliceV{abs: &absSlice{length: hi, capa: capT, elemT: a.abs.elemT}})
+			fr.pc++
+			return
 		}
 		lo := getI(x.Low, 0)
 		hi := getI(x.High, len(a.arr))
